@@ -91,6 +91,19 @@ F('transitions', r'constexpr\s+void\s+transitions\(size16_t state_idx,\s*size16_
   'void transitions(size16_t state_idx, size16_t symbol_idx, const struct sitvec* symbol_situations)', scope=SA, rules=TRANS_RULES + OBJ)
 
 
+CLOSURE_RULES = [
+    S(r'closures\[([^\]]*)\]\[([^\]]*)\]', r'(*sitvec_at(&closures[\1], \2))', name='R4:closures[s][i]'),
+    S(r'const utils::slice& sl = ([^;]*);', r'const struct utils__slice* sl = &(\1);', name='R5:sl'), S(r'\bsl\.', 'sl->', min=3),
+    S(r'const term_subset& first = make_right_side_slice_first\(ri,', 'const struct cbitset* first = vx_rss_first(ri,', name='R5:first / abstract callee'),
+    S(r'(?<![\w.>])first\.test\(', 'cbitset_test(first, ', min=2, name='R4:first.test'),
+    S(r'make_right_side_slice_empty\(ri,', 'vx_rss_empty(ri,', name='abstract callee: make_right_side_slice_empty'),
+    S(r'(?<![\w.])add_situation\(state_idx,', 'vx_add_situation_any(state_idx,', min=3, name='abstract callee: add_situation'),
+    S(r'\bsm\.(idx|term)\b', r'sm->\1', min=2, name='R5:sm.member'),
+    S(r'(?<![\w.])make_situation_idx\(', 'vx_enc(', min=2, name='abstract callee: make_situation_idx (any encoding)'),
+]
+F('closure', r'constexpr\s+void\s+closure\(size16_t state_idx,\s*size32_t sit_idx\)', 'void closure(size16_t state_idx, size32_t sit_idx)', scope=SA, rules=CLOSURE_RULES + OBJ)
+
+
 def key_fragment(rx):
     def frag(body):
         m = re.search(rx, body)
@@ -106,12 +119,12 @@ F('vx_first_key', r'constexpr\s+const\s+term_subset&\s+make_right_side_slice_fir
 F('vx_empty_key', r'constexpr\s+bool\s+make_right_side_slice_empty\(const rule_info& ri,\s*size_t start\)', 'size_t vx_empty_key(const struct rule_info* ri, size_t start)', scope=SA,
   fragment=key_fragment(r'auto idx = ([^;]+);'), rules=[S(r'\bri\.', 'ri->')])
 
-PRELUDE = PC.types(4, 8, 4, 2, 4, 3) + r'''
+PRELUDE = PC.types(2, 8, 4, 2, 4, 3) + r'''
 int vx_thrown;
 #define VX_CAP 8
 ''' + SX.cvector_struct('sitvec', 'size32_t') + SX.cbitset_struct() + r'''
 /* struct state { all_situations_vec; kernel; situations_by_symbol[symbol_count] } is lowered field by field (R3) */
-#define PH_SAS 64      /* physical situation address space (bits) */
+#define PH_SAS 48      /* physical situation address space (bits) */
 #define PH_RSS 16      /* physical size of the right-side-slice memo tables */
 /* ---- parser / state_analyzer members (R3) ---- */
 struct grammar_info gi;
